@@ -31,10 +31,22 @@ T = {
     "C09gen":  ("Cfgs_C09q", "Lens_C09", "Dts_C09", "T0_C09", 2, 2, 0, 0, 2, None),
     "C09gent": ("Cfgs_C09q", "Lens_C09", "Dts_C09", "T0_C09", 3, 2, 0, 0, 2, None),
 }
+C18I = ["C18_ExactlyOnce", "C18_OrderedParts", "C07_CurrentSafeSw", "C06_NoDestruction"]
+SW = {  # name: (MaxSw, ResetCfgs)
+    "C18q": (2, "Reset_C18"), "C18t": (3, "Reset_C18"), "C18gen": (2, "Reset_C18"), "C18gent": (2, "Reset_C18"),
+}
+T.update({
+    "C18q":    ("Cfgs_C18q", "Lens_C06", "{1}", 1000, 3, 1, 1, 0, 0, C18I),
+    "C18t":    ("Cfgs_C18",  "Lens_C06", "{1}", 1000, 4, 1, 1, 0, 0, C18I),
+    "C18gen":  ("Cfgs_C18q", "Lens_C06", "{1}", 1000, 3, 1, 1, 0, 0, None),
+    "C18gent": ("Cfgs_C18",  "Lens_C06", "{1}", 1000, 3, 1, 1, 0, 0, None),
+})
 for name, (cfgs, lens, dts, t0, recs, runs, trig, ext, adv, inv) in T.items():
     lines = ["SPECIFICATION Spec", "CONSTANTS", f"  Cfgs <- {cfgs}", f"  Lens <- {lens}"]
     lines.append(f"  Dts = {dts}" if dts.startswith("{") else f"  Dts <- {dts}")
     lines.append(f"  T0 = {t0}" if isinstance(t0, int) else f"  T0 <- {t0}")
+    sw, rc = SW.get(name, (0, "NoReset"))
+    lines += [f"  MaxSw = {sw}", f"  ResetCfgs <- {rc}"]
     lines += [f"  MaxRecs = {recs}", f"  MaxRuns = {runs}", f"  MaxTrig = {trig}", f"  MaxExt = {ext}", f"  MaxAdv = {adv}",
               "  Fixes <- RepoFixes" if inv is None else "  Fixes <- AllFixes",
               f"  GenHist = {'TRUE' if inv is None else 'FALSE'}"]
